@@ -37,6 +37,8 @@ def main():
         import check_c15 as m
     elif pid == "C16":
         import check_c16 as m
+    elif pid == "C19":
+        import check_c19 as m
     elif pid == "C17":
         import check_c17 as m
     else:
